@@ -49,6 +49,10 @@ def body_plan(kind):
         return [('write', 'abcdefghij'), ('seek', 3), ('write', 'XYZ'), ('seek', 10), ('write', '!\n')]
     if kind == 'bigflush':
         return [('write', 'Q' * BIG), ('flush',), ('write', 'R' * 9000), ('write', 'end\n')]
+    if kind == 'sysexit':        # the process ends itself inside the block (sys.exit(), a SIGTERM handler ...)
+        return [('write', 'half-of-the-new-content\n'), ('flush',), ('abort', 'SystemExit'), ('write', 'never\n')]
+    if kind == 'kbint':
+        return [('write', 'X' * BIG), ('abort', 'KeyboardInterrupt')]
     raise AssertionError(kind)
 
 
@@ -88,6 +92,19 @@ def configs(tier):
             kinds = ['stale'] + (['hardlink'] if c['dest_present'] else [])
             for kind in kinds:
                 out.append(dict(c, overwrite_part=True, part=kind))
+    # the process leaves the with-block through SystemExit / KeyboardInterrupt after a partial write
+    for c in base:
+        if c['file_perms'] is None and c['body'] == 'one':
+            for b in ('sysexit', 'kbint'):
+                out.append(dict(c, body=b))
+    # two savers of one destination whose with-blocks overlap (the second one is refused, and retried)
+    for c in base:
+        if c['file_perms'] is None and c['body'] in ('one', 'big') and c['overwrite']:
+            out.append(dict(c, interleaved=True))
+    # the part file named by an absolute path on another file system (rename cannot be atomic there)
+    for c in base:
+        if c['file_perms'] is None and c['body'] in ('one', 'big') and c['overwrite'] and not c['text_mode']:
+            out.append(dict(c, part_other_fs=True))
     return out
 
 
@@ -96,7 +113,14 @@ class Scenario:
         self.cfg, self.d = cfg, d
         self.dest = os.path.join(d, 'dest.txt')
         self.plan = body_plan(cfg['body'])
-        self.new = expected_content(self.plan)
+        self.aborts = any(st[0] == 'abort' for st in self.plan)
+        # complete contents the destination may legitimately show; none if the body never completes
+        self.new = None if self.aborts else expected_content(self.plan)
+        self.news = [] if self.aborts else [self.new]
+        if cfg.get('interleaved'):
+            self.new_b = b'CONTENT-OF-THE-SECOND-SAVER\n' * 3
+            self.news.append(self.new_b)
+        self.other_dir = cfg.get('other_dir')
 
         self.initial = self.initial_state()
         ent = self.initial.get('dest.txt')
@@ -138,7 +162,11 @@ class Scenario:
         fileutils.os = proxy
         try:
             kw = save_kwargs(cfg)
+            if cfg.get('part_other_fs'):
+                kw['part_file'] = os.path.join(self.other_dir, 'elsewhere-%d.part' % os.getpid())
             env.decide({'name': 'checkpoint', 'key': ('before with',)})
+            if cfg.get('interleaved'):
+                return self.run_interleaved(env, fileutils, kw)
             with fileutils.atomic_save(self.dest, **kw) as f:
                 env.decide({'name': 'checkpoint', 'key': ('enter',)})
                 for i, st in enumerate(self.plan):
@@ -148,15 +176,55 @@ class Scenario:
                         f.flush()
                     elif st[0] == 'seek':
                         f.seek(st[1])
+                    elif st[0] == 'abort':
+                        raise {'SystemExit': SystemExit, 'KeyboardInterrupt': KeyboardInterrupt}[st[1]]('leaving')
                     env.decide({'name': 'checkpoint', 'key': ('body', i)})
             env.decide({'name': 'checkpoint', 'key': ('after with',)})
             return None
         except envfaults.Crash:
             raise
-        except Exception as e:
+        except BaseException as e:      # noqa - SystemExit / KeyboardInterrupt bodies are part of the alphabet
             return e
         finally:
             fileutils.os = saved
+
+    def run_interleaved(self, env, fileutils, kw):
+        """Saver A is inside its with-block when saver B tries to save the same destination (B must be refused: the part
+        file exists), B tries again, A finishes.  If B is (wrongly) let in, it writes half, A finishes, B finishes."""
+        cfg = self.cfg
+        enc = (lambda x: x) if cfg['text_mode'] else (lambda x: x.encode('utf-8'))
+        text_a = ''.join(st[1] for st in self.plan if st[0] == 'write')
+        text_b = self.new_b.decode('utf-8')
+        A, B = fileutils.atomic_save(self.dest, **kw), fileutils.atomic_save(self.dest, **kw)
+        fa = A.__enter__()
+        fa.write(enc(text_a[:len(text_a) // 2]))
+        env.decide({'name': 'checkpoint', 'key': ('A half',)})
+        fb = None
+        for attempt in (1, 2):
+            try:
+                fb = B.__enter__()
+                break
+            except OSError:
+                env.decide({'name': 'checkpoint', 'key': ('B refused', attempt)})
+        if fb is not None:
+            fb.write(enc(text_b[:len(text_b) // 2]))
+            fb.flush()
+            env.decide({'name': 'checkpoint', 'key': ('B half',)})
+        fa.write(enc(text_a[len(text_a) // 2:]))
+        err = None
+        try:
+            A.__exit__(None, None, None)
+        except OSError as e:
+            err = e
+        env.decide({'name': 'checkpoint', 'key': ('A done',)})
+        if fb is not None:
+            fb.write(enc(text_b[len(text_b) // 2:]))
+            try:
+                B.__exit__(None, None, None)
+            except OSError as e:
+                err = err or e
+        env.decide({'name': 'checkpoint', 'key': ('after with',)})
+        return err
 
 
 def save_kwargs(cfg):
@@ -193,10 +261,10 @@ def dest_ok(snap, sc):
     data = ent[1]
     if sc.old is not None and data == sc.old:
         return None
-    if data == sc.new:
+    if data in sc.news:
         return None
-    return 'destination holds %d bytes that are neither the previous nor the complete new content (new=%d bytes): %r' \
-        % (len(data), len(sc.new), data[:40])
+    return 'destination holds %d bytes that are neither the previous nor the complete new content (new=%s bytes): %r' \
+        % (len(data), [len(n) for n in sc.news], data[:40])
 
 
 # ----------------------------------------------------------------------------------------------------
@@ -293,6 +361,8 @@ def durable_states(log, k, sc):
 
 
 def check_log_order(log, sc, bad):
+    if sc.cfg.get('interleaved') or sc.cfg.get('part_other_fs'):
+        return          # two savers / a foreign part path: the single-save ordering rules below do not apply
     part = sc.dest + '.part'
     idx = {n: [] for n in ('raw_write', 'fsync', 'raw_close', 'publish', 'open_part')}
     for i, ev in enumerate(log):
@@ -319,6 +389,11 @@ def check_log_order(log, sc, bad):
                     ev['args'][0])
         elif nm in ('truncate', 'write', 'sendfile', 'copy_file_range'):
             bad('order', 'unexpected %s call' % nm, 'none', repr(ev.get('args')))
+    if sc.aborts:
+        if idx['publish']:
+            bad('order', 'publishing call although the body did not complete', 'no rename/link onto the destination',
+                len(idx['publish']))
+        return
     if len(idx['publish']) != 1:
         bad('order', 'publishing calls', 'exactly one rename/link onto the destination', len(idx['publish']))
         return
@@ -374,11 +449,24 @@ def run_config(task):
     t.add('events', len(env.log))
     t.add('crash_points', npoints + 1)
     # 3. normal completion
-    if exc is not None:
+    fdest = final.get('dest.txt', (None, None))[1]
+    if sc.aborts:
+        # the body left through SystemExit/KeyboardInterrupt: that exception reaches the caller, nothing is published
+        if not isinstance(exc, (SystemExit, KeyboardInterrupt)):
+            bad('normal', 'exception of an aborted body', 'SystemExit/KeyboardInterrupt propagates', repr(exc))
+        if fdest != sc.old:
+            bad('normal', 'destination after an aborted body', sc.old, fdest)
+    elif cfg.get('part_other_fs'):
+        # a rename across file systems cannot be atomic: refusing (OSError) with the destination untouched, or completing
+        ok = (isinstance(exc, OSError) and fdest == sc.old) or (exc is None and fdest == sc.new)
+        if not ok:
+            bad('normal', 'part file on another file system', 'OSError and destination untouched, or a completed save',
+                (repr(exc), fdest if fdest is None else fdest[:40]))
+    elif exc is not None:
         bad('normal', 'save raised', 'no exception', repr(exc))
     else:
-        if final.get('dest.txt', (None, None))[1] != sc.new:
-            bad('normal', 'destination content after normal exit', sc.new[:60], final.get('dest.txt', (None, None))[1])
+        if fdest not in sc.news:
+            bad('normal', 'destination content after normal exit', sc.news[0][:60], fdest)
         left = sorted(k for k in final if k != 'dest.txt')
         if left:
             bad('normal', 'files left behind', [], left)
@@ -401,7 +489,7 @@ def run_config(task):
                     bad('crash', 'power loss', 'dest in {previous, complete new}', 'destination name lost',
                         {'log_prefix': k, 'metadata_prefix': j})
                 continue
-            if content == sc.new or (sc.old is not None and content == sc.old):
+            if content in sc.news or (sc.old is not None and content == sc.old):
                 continue
             bad('crash', 'power loss', 'dest in {previous, complete new}',
                 'durable destination holds %d bytes, neither previous nor complete new content' % len(content),
@@ -463,12 +551,16 @@ class NullEnv:
     def decide(self, ev): return None
 from boltons import fileutils
 kw = m.save_kwargs(cfg)
+if cfg.get('part_other_fs'): kw['part_file'] = os.path.join(cfg['other_dir'], 'elsewhere-%d.part' % os.getpid())
 os.write(1, b'BEGIN\n')
-with fileutils.atomic_save(sc.dest, **kw) as f:
-    for st in sc.plan:
-        if st[0] == 'write': f.write(st[1] if cfg['text_mode'] else st[1].encode('utf-8'))
-        elif st[0] == 'flush': f.flush()
-        elif st[0] == 'seek': f.seek(st[1])
+try:
+    with fileutils.atomic_save(sc.dest, **kw) as f:
+        for st in sc.plan:
+            if st[0] == 'write': f.write(st[1] if cfg['text_mode'] else st[1].encode('utf-8'))
+            elif st[0] == 'flush': f.flush()
+            elif st[0] == 'seek': f.seek(st[1])
+except OSError:
+    if not cfg.get('part_other_fs'): raise
 os.write(1, b'END\n')
 '''
 
@@ -550,11 +642,17 @@ def strace_run(task):
     want = [n for n in names if n in ('open', 'rename', 'link', 'unlink', 'chmod', 'fsync', 'raw_write', 'raw_close',
                                       'replace')]
     want = ['rename' if n == 'replace' else n for n in want]
-    if norm != want:
-        res['problems'].append('syscall sequence %r differs from traced event sequence %r' % (norm, want))
     final = norm_snap(envfaults.snapshot(d))
-    if final.get('dest.txt', (None, None))[1] != sc.new or len(final) != 1:
-        res['problems'].append('unpatched run left %r' % {k: len(v[1]) for k, v in final.items()})
+    fdest = final.get('dest.txt', (None, None))[1]
+    if cfg.get('part_other_fs'):
+        # the part file lives outside the traced directory: only the rule about the destination path is checked
+        if not (fdest == sc.old or fdest == sc.new):
+            res['problems'].append('unpatched run left %r' % {k: len(v[1]) for k, v in final.items()})
+    else:
+        if norm != want:
+            res['problems'].append('syscall sequence %r differs from traced event sequence %r' % (norm, want))
+        if fdest != sc.new or len(final) != 1:
+            res['problems'].append('unpatched run left %r' % {k: len(v[1]) for k, v in final.items()})
     shutil.rmtree(d, ignore_errors=True)
     try:
         os.unlink(out)
@@ -566,8 +664,23 @@ def strace_run(task):
 def run(ctx):
     from mc import inputs
     base = core.scratch_dir('c04')
+    other = None
     try:
         cfgs = configs(ctx.tier)
+        other = None
+        for cand in ('/var/tmp', '/tmp', os.path.expanduser('~')):
+            try:
+                if os.stat(cand).st_dev != os.stat(base).st_dev and os.access(cand, os.W_OK):
+                    import tempfile
+                    other = tempfile.mkdtemp(prefix='verif-c04-otherfs-', dir=cand)
+                    break
+            except OSError:
+                pass
+        if other is None:
+            ctx.note('no second file system available: part_other_fs configurations skipped')
+            cfgs = [c for c in cfgs if not c.get('part_other_fs')]
+        else:
+            cfgs = [dict(c, other_dir=other) if c.get('part_other_fs') else c for c in cfgs]
         tasks = [(cfg, base, True) for cfg in cfgs]
         results = core.pmap(run_config, tasks, chunksize=2)
         total = inputs.Tally()
@@ -607,11 +720,13 @@ def run(ctx):
         cov['samples'].append({'config': cfgs[0], 'event_log': [list(map(str, e)) for e in results[0][1]]})
         # strace conformance
         if shutil.which('strace'):
-            sel = list(range(len(cfgs))) if not ctx.quick() else \
+            sel = [i for i, c in enumerate(cfgs) if not c.get('interleaved') and c['body'] not in ('sysexit', 'kbint')] \
+                if not ctx.quick() else \
                 [i for i, c in enumerate(cfgs) if c['body'] in ('mix', 'seek') and c['file_perms'] is None
                  and c.get('buffering') is None][:6] + \
                 [i for i, c in enumerate(cfgs) if c.get('buffering') == 0][:2] + \
-                [i for i, c in enumerate(cfgs) if c.get('part')][:3]
+                [i for i, c in enumerate(cfgs) if c.get('part')][:3] + \
+                [i for i, c in enumerate(cfgs) if c.get('part_other_fs')][:2]
             stasks = [(cfgs[i], base, [e[0] for e in results[i][1]]) for i in sel]
             sres = core.pmap(strace_run, stasks)
             cov['strace_traces_compared'] = len(sres)
@@ -643,6 +758,8 @@ def run(ctx):
                             'the save - validated by fork-kill and strace conformance']
     finally:
         shutil.rmtree(base, ignore_errors=True)
+        if other is not None:
+            shutil.rmtree(other, ignore_errors=True)
 
 
 def replay(ctx, data):
